@@ -116,3 +116,21 @@ Example C10_ex_quat : 0 < qnorm2 ROps (mkQ 2 0 0 0).
 Proof. unfold qnorm2. rcbn. lra. Qed.
 Example C10_ex_rot2 : proper_rotation2 (mkM2 0 (-1) 1 0).
 Proof. unfold proper_rotation2. cbn. repeat split; ring. Qed.
+
+(* --- SOURCE TIE (translator translate/srcfuns.py): the two angle normalisers and the rotation -> angle extractors of
+       EulerAngles.hpp, regenerated on every run from the clang AST of their instantiation at double (gen/SrcFuns.v),
+       are the model functions b02 / bpi / r2a / r2e of the theorems above --- *)
+From Romea Require Import SrcTieAngles.
+From Romea.gen Require Import SrcFuns.
+Theorem C10_source_tie_normalisers : forall v,
+  src_between0And2Pi ROps v = b02 v /\ src_betweenMinusPiAndPi ROps v = bpi v.
+Proof. intros v. exact (conj (tie_between0And2Pi v) (tie_betweenMinusPiAndPi v)). Qed.
+Print Assumptions C10_source_tie_normalisers.
+
+Theorem C10_source_tie_rotation_to_angles :
+  (forall m : mat2 R, src_rotation2DToEulerAngle ROps (a10 m) (a01 m) (a00 m) (a11 m) = rotation2DToEulerAngle ROps ROps idR idR m) /\
+  (forall m : mat3 R, nleb ROps (nabs ROps (m20 m)) (n_one ROps) = true ->
+     rotation3DToEulerAngles ROps ROps idR idR m =
+     (let '(r, p, y) := src_rotation3DToEulerAngles ROps (m21 m) (m22 m) (m20 m) (m10 m) (m00 m) in Some (mkV3 r p y))).
+Proof. exact (conj tie_rotation2DToEulerAngle tie_rotation3DToEulerAngles). Qed.
+Print Assumptions C10_source_tie_rotation_to_angles.
